@@ -320,9 +320,11 @@ own stream only: two generator objects with equal parameters and equal streams p
 however their construction and use are interleaved — each owns its stream. -/
 theorem C19_deterministic (p : GenParams) (n : Nat) (g1 g2 : GenState) (h : g1.draws = g2.draws)
     (hc : g1.counter = g2.counter) :
-    (iterate p n g1).map (fun r => r.1) = (iterate p n g2).map (fun r => r.1) := by
+    ((iterate p n g1).map (fun r => r.1)).mapError (fun e => (e.1, e.2.draws, e.2.counter)) =
+      ((iterate p n g2).map (fun r => r.1)).mapError (fun e => (e.1, e.2.draws, e.2.counter)) := by
   have : ∀ (n : Nat) (g1 g2 : GenState), g1.draws = g2.draws → g1.counter = g2.counter →
-      (iterate p n g1).map (fun r => r.1) = (iterate p n g2).map (fun r => r.1) := by
+      ((iterate p n g1).map (fun r => r.1)).mapError (fun e => (e.1, e.2.draws, e.2.counter)) =
+        ((iterate p n g2).map (fun r => r.1)).mapError (fun e => (e.1, e.2.draws, e.2.counter)) := by
     intro n
     induction n with
     | zero => intro g1 g2 _ _; rfl
@@ -337,7 +339,7 @@ theorem C19_deterministic (p : GenParams) (n : Nat) (g1 g2 : GenState) (h : g1.d
         have := ih { g1 with draws := d, counter := g2.counter + 1 } { g2 with draws := d, counter := g2.counter + 1 } rfl rfl
         cases h1 : iterate p n { g1 with draws := d, counter := g2.counter + 1 } <;>
           cases h2 : iterate p n { g2 with draws := d, counter := g2.counter + 1 } <;>
-          simp_all [Except.map]
+          simp_all [Except.map, Except.mapError]
   exact this n g1 g2 h hc
 
 /-! non-vacuity -/
